@@ -1087,3 +1087,22 @@ Theorem add_common_contract_partial :
      CRefused VM1 (Via USAGE); CRefused VM1 (Via USAGE); CRefused VM1 (Via USAGE)].
 Proof. exact add_common_contract_examples. Qed.
 Print Assumptions add_common_contract_partial.
+
+(* 12. Failures of a callee that leaves its reason in errno (_vnacommon_spline_calc: EINVAL = frequencies too close
+       together, otherwise a failed allocation), reported as 'if (errno == EINVAL) report(c1) else report(c2)' in front of the
+       first write (fix DI93; SAlloc positions of the generated lists, gen_errno_reports): as found c1 = VNAERR_USAGE,
+       c2 = VNAERR_SYSTEM; in both branches and on each path through the reporter: one call of the error function (none
+       without one), errno on return = errno inside the call = what the callee left. *)
+Theorem errno_dependent_reports_as_found :
+  forallb (fun p => category_eqb (snd (fst p)) USAGE && category_eqb (snd p) SYSTEM) gen_errno_reports = true.
+Proof. exact errno_reports_as_found_l. Qed.
+Print Assumptions errno_dependent_reports_as_found.
+
+Theorem errno_dependent_report : forall f c1 c2 p entry clob (einval : bool),
+  In (f, c1, c2) gen_errno_reports ->
+  let cat := if einval then c1 else c2 in
+  let e := if einval then E_INVAL else entry in
+  run_effects (new_errno cat e) cat (path_effects p) clob 0 (mkr e []) =
+  mkr e (match p with PNoErrorFn => [] | _ => [(cat, e)] end).
+Proof. exact errno_dependent_report_l. Qed.
+Print Assumptions errno_dependent_report.
